@@ -5,7 +5,8 @@
     program would have undefined behaviour there (out-of-bounds read/write, use of an indeterminate byte,
     NULL dereference, signed overflow, unbounded recursion / out of fuel). *)
 From Snoopy Require Import Lib.CStr Safety.Mem Safety.CLib Safety.Consts Safety.Lits Safety.Str Safety.Filter Safety.Conf Safety.Ds Safety.Out Safety.Top
-     Safety.P_Str Safety.P_Filter Safety.P_Conf Safety.P_Ini Safety.P_Ds Safety.P_Out Safety.P_Top Expand.Model Datasource.Cmdline.
+     Safety.P_Str Safety.P_Filter Safety.P_Conf Safety.P_Ini Safety.P_Ds Safety.P_Out Safety.P_Top Safety.Cgroup Safety.P_Cgroup Safety.Rpname Safety.P_Rpname
+     Expand.Model Datasource.Cmdline.
 From Gen Require Import Gen_Safety Gen_Expand Gen_Cmdline.
 Local Open Scope N_scope.
 
@@ -113,6 +114,25 @@ Proof. exact (datetime_safe C gen_ok). Qed.
 Theorem C02_snprintf_ds_safe : forall a size text, 1 <= size -> size <= cap a -> nonul text -> ds_result_ok a size (ds_snprintf a size text).
 Proof. exact (ds_snprintf_safe C gen_ok). Qed.
 
+(** cgroup.c (with util/file.c's block and util/string.c's line helpers): ANY /proc/<pid>/cgroup content, any argument *)
+Theorem C02_cgroup_safe : forall buf size arg pid_text file open_err,
+    1 <= size -> size <= cap buf -> nonul arg -> nonul pid_text -> nonul open_err ->
+    exists buf' failed, cgroup_buf C (s_cg_path C) buf size arg pid_text file open_err = Ok (buf', failed) /\ cap buf' = cap buf /\
+      exists s, cstr buf' 0 = Ok s /\ len s < size.
+Proof. intros. apply (cgroup_safe C gen_ok); try assumption. vm_compute. discriminate. Qed.
+(** rpname.c: safe for every /proc/<pid>/status in which the looked-up line has a byte behind "Key:<tab>" (what the kernel
+    writes); WITHOUT that the code reads behind the line's terminator (see P_Rpname.v, RpnameCounterexamples: "PPid:" at
+    end of file) -- [_partial]: the hypothesis [status_wf] is an assumption about the kernel, not about snoopy's inputs *)
+Definition RP : rp_sizes := {| path_cap := s_rp_path C; val_max := s_rp_val_max C; ret_cap := s_rp_ret_cap C |}.
+Theorem C02_rpname_safe_partial : forall status fuel pid buf size, status_wf status -> 1 <= size -> size <= cap buf ->
+    (exists buf' n, rpname_buf RP status fuel pid buf size = Ok (buf', n) /\ cap buf' = cap buf /\ exists s, cstr buf' 0 = Ok s /\ len s < size)
+    \/ rpname_buf RP status fuel pid buf size = Fault Out_of_fuel.
+Proof. apply (rpname_safe RP); vm_compute; [discriminate|reflexivity]. Qed.
+Theorem C02_rpname_fuel : forall status n fuel pid buf size, chain RP status n (Z.of_N pid) -> (n <= fuel)%nat -> status_wf status ->
+    1 <= size -> size <= cap buf ->
+    exists buf' n', rpname_buf RP status fuel pid buf size = Ok (buf', n') /\ cap buf' = cap buf /\ exists s, cstr buf' 0 = Ok s /\ len s < size.
+Proof. apply (rpname_fuel RP); vm_compute; [discriminate|reflexivity]. Qed.
+
 (** * error handler cycle, outputs, util/file.c *)
 Theorem C02_error_dispatch_terminates : forall nref depth en msg, (2 <= depth)%nat -> exists r, handler C nref depth en msg = Ok r /\ r = en.
 Proof. exact (error_dispatch_terminates_depth2 C gen_ok). Qed.
@@ -141,11 +161,11 @@ Proof. exact (small_file_safe C gen_ok). Qed.
     PROVED below ([_partial]): for every byte string as snoopy.ini (or none), every world (path, argv, environ incl. NULL,
     host name, login, strftime output, /proc content, any behaviour of the data sources outside the model that prints
     through snprintf), both limits ending anywhere in [HARDMIN, HARDMAX]: the composed model never faults and the message
-    buffer is NUL-terminated within its size.  PARTIAL because (a) the data sources cgroup, rpname, domain, ipaddr,
-    systemd_unit_name, tty*, *username, *group, cwd and util/{file,utmp,systemd,pwd}.c enter only through the snprintf
-    contract ([w_other_ds]; util/file.c's read loop is proved separately: C02_small_file_safe), (b) termination of the
-    exclude_spawns_of walk is assumed from the /proc parent chain being finite ([proc_terminates]), (c) locking,
-    allocation failure and the I/O calls themselves are outside this model (C03, C09, C16). *)
+    buffer is NUL-terminated within its size.  PARTIAL because (a) the data sources domain, ipaddr, systemd_unit_name, tty*,
+    *username, *group, cwd and util/{utmp,systemd,pwd}.c enter only through the snprintf contract ([w_other_ds]);
+    (b) rpname needs /proc/<pid>/status lines in the kernel's format ([status_wf]); termination of the two /proc walks
+    (exclude_spawns_of, rpname) is assumed from the parent chains being finite ([proc_terminates], [chain]);
+    (c) locking, allocation failure and the I/O calls themselves are outside this model (C03, C09, C16). *)
 Theorem C02_safe_partial : forall w, world_wf C w -> forall dflt ini, cfg_wf C dflt ->
     exists r, log_call C E CC dflt w ini = Ok r /\ in_limits C (r_cfg r) /\
               r_bufsize r = g_llog (r_cfg r) + s_log_size_adj C /\ r_bufsize r <= cap (r_log r) /\
@@ -173,6 +193,9 @@ Print Assumptions C02_hostname_safe.
 Print Assumptions C02_login_safe.
 Print Assumptions C02_datetime_safe.
 Print Assumptions C02_snprintf_ds_safe.
+Print Assumptions C02_cgroup_safe.
+Print Assumptions C02_rpname_safe_partial.
+Print Assumptions C02_rpname_fuel.
 Print Assumptions C02_error_dispatch_terminates.
 Print Assumptions C02_socket_addr_safe.
 Print Assumptions C02_devlog_safe.
@@ -185,6 +208,8 @@ Definition w0 : world :=
   {| w_file := Some [x2f; x62]; w_argv := Some [[x6c; x73]; [x2d; x6c]]; w_environ := None;
      w_host := [x68]; w_errno := [x33; x36]; w_getlogin := None; w_sudo_user := Some [x75]; w_logname := None;
      w_strftime := fun _ => [x32; x30]; w_dt_default := [x25; x46];
+     w_cgroup_file := Some [x30; x3a; x3a; x2f; x0a]; w_pid_text := [x37]; w_open_err := [x65];
+     w_status := fun _ => None; w_rp_fuel := 1;
      w_other_ds := fun _ _ => (false, Some [x30]); w_known_ds := fun n => list_eqb n ds_cmdline || list_eqb n ds_env_all;
      w_known_filter := fun n => list_eqb n f_only_uid; w_filter_verdict := fun _ _ => true;
      w_ppid := 0; w_procstat := fun _ => None; w_scan := fun _ => None; w_proc_fuel := 1; w_pri := 86; w_pid := 7; w_nref := fun _ => 2 |}.
@@ -204,6 +229,8 @@ Proof.
     + intros x H. discriminate.
     + intros n a t H. injection H as <-. apply nonulb_spec. reflexivity.
     + intros raw toks _. apply R_zero.
+    + intros pid content H. discriminate.
+    + apply Ch_stop. right. right. vm_compute. reflexivity.
   - unfold cfg_wf, in_limits. cbn. repeat split; try (apply nonulb_spec; vm_compute; reflexivity); vm_compute; discriminate.
 Qed.
 (** a configuration line that lowers the limit to the minimum, a filter chain, an ident template: the run is Ok and
